@@ -229,7 +229,10 @@ None."""
             if self._cachestore is not None:
                 self._cachestore.store(filename, parser, mtime_ns)
 
-        for include in parser.get_namespace().includes:
+        # 'includes' is a set: iterate it in a fixed order, so that the order in
+        # which namespaces get registered (which decides ties when resolving
+        # C type names) does not depend on the hash seed or on unpickling
+        for include in sorted(parser.get_namespace().includes):
             if include.name not in self._parsed_includes:
                 dep_filename = self._find_include(include)
                 self._parse_include(dep_filename)
